@@ -62,9 +62,16 @@ class Live:
         if kind == "json":
             return {"k": "v", "h": dig(json.dumps(obj, sort_keys=True, default=str))}
         if kind == "transform":
-            return {"k": "a", "hs": [dig([steps.pstep(s), proj.proj(d), list(m.ranges)]) for s, d, m in zip(obj.steps, obj.docs, obj.mapping.maps)]}
+            hs = [dig([steps.pstep(s), proj.proj(d), list(m.ranges)]) for s, d, m in zip(obj.steps, obj.docs, obj.mapping.maps)]
+            if not (len(obj.steps) == len(obj.docs) == len(obj.mapping.maps)):
+                # the three sequences only grow together: anything else rewrites the accumulator
+                hs = [f"misaligned {len(obj.steps)}/{len(obj.docs)}/{len(obj.mapping.maps)}"] + hs
+            return {"k": "a", "hs": hs}
         if kind == "mapping":
             return {"k": "a", "hs": [dig([list(m.ranges), bool(m.inverted)]) for m in obj.maps]}
+        if kind == "mappingvalue":
+            # a mapping that is no longer appended to by anybody: a value like any other
+            return {"k": "v", "h": dig([[list(m.ranges), bool(m.inverted)] for m in obj.maps] + [list(obj.mirror or []), obj.from_, obj.to])}
         raise ValueError(kind)
 
     def snapshot(self):
@@ -110,6 +117,7 @@ def session(b, sch, js, rng, start_docs, slices, tid, ncalls, dom=None):
     live.add("mapping", trs[0].mapping)
     held_steps = []
     marksets = [[]]
+    retired = []          # mappings of finished transforms (tracked as values)
     log = []
 
     def call(name, fn):
@@ -316,6 +324,29 @@ def session(b, sch, js, rng, start_docs, slices, tid, ncalls, dom=None):
                 inv = call("Mapping.invert", mp.invert)
                 if inv is not None:
                     live.add("mapping", inv)
+                # "map through several transforms": a finished transform's mapping is handed to a fresh mapping that
+                # is then appended to; the argument must stay what it was
+                # (the argument was registered as a live value in an earlier call, so that its state before these
+                # operations is known)
+                for arg in retired[-2:]:
+                    fresh = Mapping()
+                    call("Mapping.append_mapping", lambda: fresh.append_mapping(arg))
+                    call("Mapping.append_map", lambda: fresh.append_map(StepMap([0, 0, 1])))
+                    call("Mapping.append_mapping", lambda: fresh.append_mapping(mp))
+                    fresh2 = Mapping()
+                    call("Mapping.append_mapping_inverted", lambda: fresh2.append_mapping_inverted(arg))
+                    call("Mapping.append_map", lambda: fresh2.append_map(StepMap([0, 1, 0])))
+                    live.add("mapping", fresh)
+                    live.add("mapping", fresh2)
+                tr2 = Transform(doc)
+                for _ in range(rng.randint(1, 3)):
+                    try:
+                        tr2.maybe_step(sg.random_step(tr2.doc))
+                    except Exception:  # noqa: BLE001
+                        pass
+                if tr2.steps:
+                    retired.append(tr2.mapping)
+                    live.add("mappingvalue", tr2.mapping)
             elif kind == "dom" and dom is not None:
                 name = "DOM"
                 ser, parser = dom
